@@ -177,6 +177,30 @@ pub fn c11(a: &Analysis) -> Vec<Violation> {
             }
         }
     }
+    // routing: a PDU pulled for a live transaction is handed to it. Observable for file data (every
+    // processed file-data PDU yields a FileSegmentRecv indication) and for NAKs (the sender answers
+    // every request before its next EOF: C07's clause, re-labelled)
+    for t in a.txns.values() {
+        let Some(d) = t.dst_ent else { continue };
+        if d >= sc.ents.len() || !sc.ents[d].real || t.put.is_none() {
+            continue;
+        }
+        let end = t.at_dst.inds.iter().find(|i| matches!(&i.ind, cfdp_core::daemon::Indication::Report(r) if r.state == cfdp_core::transaction::TransactionState::Terminated));
+        let end_vt = end.map(|i| i.vt).unwrap_or(u64::MAX);
+        let pulled = t.at_dst.recvd.iter().filter(|r| r.vt < end_vt && r.pdu.as_ref().map(|p| crate::world::kind_of(p) == Kind::Fd).unwrap_or(false)).count();
+        let seen = t.at_dst.inds.iter().filter(|i| i.vt <= end_vt && matches!(&i.ind, cfdp_core::daemon::Indication::FileSegmentRecv(_))).count();
+        if seen < pulled && t.at_dst.incarnations <= 1 {
+            out.push(v("C11", "pdu_for_live_transaction_not_processed", format!("txn {:?}: entity {} pulled {} file-data PDUs for its live receive transaction, which processed {}", t.key, d, pulled, seen)));
+        }
+    }
+    for x in crate::props::c07::c07(a) {
+        if x.clause == "nak_not_answered_before_eof" {
+            let mut y = x;
+            y.prop = "C11";
+            y.clause = "pdu_for_live_transaction_not_processed";
+            out.push(y);
+        }
+    }
     // (c) the daemons survive and stay responsive
     for (i, alive) in a.rec.daemon_alive.iter().enumerate() {
         if !alive {
@@ -219,6 +243,52 @@ fn build(_ctx: &Ctx, tier: Tier, seed: u64) -> Vec<Job<'static>> {
         Tier::Thorough => (300_000, 40_000),
     };
     vec![
+        Job {
+            label: "response bursts: 3 daemons, a few Puts of 60..250 tiny segments with 10-40% of the data lost, NAK capacity 2 per PDU: dozens of NAK PDUs reach one live send transaction at one instant".into(),
+            n: n_big,
+            gen: Box::new(move |i| {
+                let mut rng = Rng::new(mix(seed ^ 0xC11B, i as u64));
+                let mut sc = scenario(seed ^ 0xB5, i, false);
+                sc.script.retain(|e| !matches!(e, Entry::Fault { .. }));
+                for e in sc.ents.iter_mut() {
+                    e.seg = 24;
+                    e.limit = 4;
+                    e.t_nak = 2;
+                    e.t_ack = 3;
+                    e.t_inact = 9;
+                    e.nak_immediate = false;
+                    e.nak_delay_ms = 0;
+                }
+                let nput = sc.puts.len() - 3;
+                for (k, p) in sc.puts.iter_mut().enumerate() {
+                    if k < nput.min(3) {
+                        p.unack = false;
+                        let nseg = rng.range(250, 400);
+                        p.file = Some(FileSpec { size: nseg * 24 - rng.below(5), class: Content::Rand, cseed: rng.next_u64() });
+                    } else if k < nput {
+                        p.at = Trigger::At(50_000_000); // keep the run small: the rest come late
+                    }
+                }
+                // lose a share of the first-pass data of every link (by index: data PDUs mostly)
+                let share = rng.range(20, 45);
+                let big_links: Vec<(usize, usize)> = sc.puts.iter().take(nput.min(3)).map(|p| (p.src, p.dst)).collect();
+                for a in 0..3usize {
+                    for b in 0..3usize {
+                        // only links that carry one of the long transfers: their hundreds of data
+                        // PDUs push every later transaction's data beyond the dropped indices
+                        if a == b || !big_links.contains(&(a, b)) {
+                            continue;
+                        }
+                        for n in 1..250u32 {
+                            if rng.below(100) < share {
+                                sc.script.push(Entry::Fault { src: a, dst: b, sel: Sel::Kind(Kind::Fd, n), act: Act::Drop });
+                            }
+                        }
+                    }
+                }
+                sc
+            }),
+        },
         Job { label: "3 daemons, 2..10 overlapping Puts, bounded loss, 0..12 stray / replayed PDUs, canary Put at every entity afterwards".into(), n: n_small, gen: Box::new(move |i| scenario(seed, i, false)) },
         Job { label: "3 daemons, 8..40 overlapping Puts (same ingredients)".into(), n: n_big, gen: Box::new(move |i| scenario(seed ^ 0xB16, i, true)) },
     ]
@@ -256,6 +326,18 @@ fn probes(a: &Analysis, out: &mut Vec<&'static str>) {
     if overlapping >= 16 {
         out.push("sixteen_or_more_transactions_live_at_once");
     }
+    {
+        let mut per: std::collections::HashMap<(usize, u64), u32> = Default::default();
+        for s in a.sends.iter().filter(|s| s.kind == Kind::Nak && !s.injected) {
+            *per.entry((s.src, s.vt)).or_insert(0) += 1;
+        }
+        if per.values().any(|n| *n > 10) {
+            out.push("more_than_10_nak_pdus_at_one_instant");
+        }
+        if per.values().any(|n| *n > 30) {
+            out.push("more_than_30_nak_pdus_at_one_instant");
+        }
+    }
     for s in &a.sends {
         if s.injected && matches!(s.fate, crate::world::Fate::Pass { .. }) {
             if s.pdu.as_ref().map(|p| p.header.direction == cfdp_core::pdu::Direction::ToSender).unwrap_or(false) {
@@ -288,4 +370,8 @@ pub fn check() -> Check {
         real: REAL_SIM.to_vec(),
         stub: STUB_SIM.to_vec(),
     }
+}
+
+pub fn selftest(seed: u64, i: usize) -> Scenario {
+    scenario(seed, i, i % 50 == 3)
 }
